@@ -205,7 +205,8 @@ def run(ctx):
 
     px = ParserX86ATT()
     rng = ctx.rng
-    dist = {"nops": {}, "operand_kinds": {}, "line_classes": {}, "impl_results_malformed": {}}
+    dist = {"nops": {}, "operand_kinds": {}, "line_classes": {}, "impl_results_malformed": {},
+            "impl_results_extended": {}}
     n_corr = n_spec = 0
 
     def note_corr(name, detail):
@@ -230,6 +231,10 @@ def run(ctx):
             if i != m:
                 note_corr("parse_line[%s]" % label, {"line": line, "impl": i, "model": m})
             if i != exp:
+                nonlocal n_spec
+                if n_spec >= 3:
+                    n_spec += 1
+                    continue
                 if ast is not None:
                     a2, l2, e2, g2 = shrink_line(px, ast, line, rng)
                 else:
@@ -258,8 +263,10 @@ def run(ctx):
             dist["operand_kinds"][kd] = dist["operand_kinds"].get(kd, 0) + 1
         if n:
             seen.add(exp)
-    for lo in range(0, len(items), 20000):
-        run_lines(items[lo:lo + 20000], "random")
+    for lo in range(0, len(items), 5000):
+        if n_spec >= 3 and lo > 0:
+            break  # failing inputs already in hand: no need for the full volume
+        run_lines(items[lo:lo + 5000], "random")
     for a, l, e in items[:3]:
         ctx.sample({"line": l, "expected": e})
     ctx.log("lines: corpus %d, enumerated %d, random %d; correspondence disagreements %d, oracle failures %d"
@@ -281,6 +288,16 @@ def run(ctx):
         dist["line_classes"][d["kind"]] = dist["line_classes"].get(d["kind"], 0) + 1
         others.append((None, l, e))
     run_lines(others, "other_classes")
+
+    # ------------------------------------------------------------------ extended stream (model vs implementation only)
+    ext = [G.gen_extended_line(rng) for _ in range(max(1500, vol["lines"] // 4))]
+    impl = [G.impl_line(px, l, 7) for l in ext]
+    model = ctx.driver.ask(["x86line " + esc(l) for l in ext])
+    for l, i, m in zip(ext, impl, model):
+        dist["impl_results_extended"][i[:1]] = dist["impl_results_extended"].get(i[:1], 0) + 1
+        if i != m:
+            note_corr("parse_line[extended]", {"line": l, "impl": i, "model": m})
+    ctx.count("lines_extended", len(ext))
 
     # ------------------------------------------------------------------ files
     nf = nfl = 0
@@ -349,7 +366,7 @@ def run(ctx):
     ctx.count("oracle_failures", n_spec)
     ctx.cov["distribution"] = dist
     ctx.cov["evaluations"] = len(CORPUS) + len(enum) + len(items) + len(others) + nfl
-    ctx.cov["traces_validated_against_impl"] = ctx.cov["evaluations"] + len(mal)
+    ctx.cov["traces_validated_against_impl"] = ctx.cov["evaluations"] + len(mal) + len(ext)
     ctx.cov["distinct_nontrivial"] = len(seen) + len(enum)
     ctx.cov["rule"] = ("lines rendered from random instruction ASTs (0-4 operands: registers of all GPR widths and "
                        "xmm/ymm/zmm0-31, decimal/hex immediates up to 64 bit with sign, $labels and a bare label first, "
